@@ -12,6 +12,11 @@
 (* reached with all invariants true and the first violated invariant are   *)
 (* kept per trace id in TLC registers and written to IOEnv.OUT at the end. *)
 (* Run with -workers 1, CHECK_DEADLOCK FALSE.                              *)
+(* A trace may start in the state of a forked child that is outside any    *)
+(* session ("child" in the trace header: actor, its pooled connection -    *)
+(* created by the parent -, the pid the pool recorded, its id counters):   *)
+(* used to validate the sessions a child starts after it has ended a       *)
+(* session it inherited (C36).                                             *)
 (***************************************************************************)
 EXTENDS PonyTxn, Json, IOUtils, TLCExt
 
@@ -30,11 +35,17 @@ ASSUME \A i \in 1..NT : TLCSet(i, 0) /\ TLCSet(NT + i, <<0, "">>) /\ TLCSet(2 * 
 TInit ==
     /\ tid \in 1..NT
     /\ pos = 1
-    /\ th = [a \in Actors |-> IF a <= Traces[tid].nthreads THEN Fresh(1) ELSE Unborn]
-    /\ conns = [c \in ConnIds |-> NoConn]
+    /\ LET ch == Traces[tid].child IN
+       /\ th = [a \in Actors |-> IF a = ch.a THEN [Fresh(2) EXCEPT !.pool = ch.pool, !.poolPid = ch.poolPid,
+                                                                  !.nc = ch.nc, !.nwl = ch.nwl]
+                                 ELSE IF a <= Traces[tid].nthreads THEN Fresh(1) ELSE Unborn]
+       /\ conns = [c \in ConnIds |-> IF ch.a # 0 /\ c = ch.pool
+                                     THEN [NoConn EXCEPT !.st = "open", !.creator = 1, !.by = 1, !.ready = TRUE]
+                                     ELSE NoConn]
+       /\ npid = IF ch.a # 0 THEN 2 ELSE 1
     /\ lock = [p \in Pids |-> 0] /\ pre = [p \in Pids |-> 0]
     /\ committed = {} /\ faults = Traces[tid].faults /\ fowner = Traces[tid].fowner
-    /\ forks = MaxForks /\ npid = 1 /\ dead = {}
+    /\ forks = MaxForks /\ dead = {}
     /\ flags = [foreignUse |-> FALSE, useAfterClose |-> FALSE, nestedBegin |-> FALSE, badRelease |-> FALSE]
 
 \* which DB-API entry point / which connection the action at label l uses
